@@ -23,6 +23,9 @@ def core1 : Prog := { impls := [], fns := [
     (.prim .unit))))))) }] }
 def ex1 : PipeIn :=
   { gensym := 3, enums := [{ name := "Opt", generics := ["T"], variants := [("Non", []), ("Som", [(.param "T")])] }], structs := [], prog := core1 }
+def goenv1 : GoCompile.Env :=
+  { structs := [{ name := "closure_env_add_0", generics := [], fields := [("k_0", (.int 32 true))] }], structsLookup := [{ name := "closure_env_add_0", generics := [], fields := [("k_0", (.int 32 true))] }], enums := [{ name := "Opt__int32", generics := [], variants := [("Non", []), ("Som", [(.int 32 true)])] }], traits := [], externFns := [], externTys := [], applyTys := [("closure_env_add_0", some (.func [(.struct "closure_env_add_0"), (.int 32 true)] (.int 32 true)))] }
+def e2e1 : E2EIn := { pipe := ex1, goenv := goenv1 }
 
 /-- corpus/C01pipe/closure-ref-loop-panic.gom: Core after match compilation -/
 def core2 : Prog := { impls := [], fns := [
@@ -40,6 +43,9 @@ def core2 : Prog := { impls := [], fns := [
     (.prim .unit))))))))) }] }
 def ex2 : PipeIn :=
   { gensym := 4, enums := [], structs := [{ name := "Acc", generics := [], fields := [("total", (.int 32 true)), ("n", (.int 32 true))] }], prog := core2 }
+def goenv2 : GoCompile.Env :=
+  { structs := [{ name := "Acc", generics := [], fields := [("total", (.int 32 true)), ("n", (.int 32 true))] }, { name := "closure_env_bump_0", generics := [], fields := [("r_0", (.ref (.int 32 true)))] }], structsLookup := [{ name := "closure_env_bump_0", generics := [], fields := [("r_0", (.ref (.int 32 true)))] }, { name := "Acc", generics := [], fields := [("total", (.int 32 true)), ("n", (.int 32 true))] }], enums := [], traits := [], externFns := [], externTys := [], applyTys := [("closure_env_bump_0", some (.func [(.struct "closure_env_bump_0"), (.int 32 true)] .unit))] }
+def e2e2 : E2EIn := { pipe := ex2, goenv := goenv2 }
 
 /-- corpus/C01pipe/generic-struct-closure-tuple.gom: Core after match compilation -/
 def core3 : Prog := { impls := [], fns := [
@@ -66,5 +72,27 @@ def core3 : Prog := { impls := [], fns := [
     (.prim .unit))))))))))) }] }
 def ex3 : PipeIn :=
   { gensym := 6, enums := [{ name := "Shape", generics := [], variants := [("Dot", []), ("Box", [(.int 32 true), (.int 32 true)])] }], structs := [{ name := "Pair", generics := ["A", "B"], fields := [("fst", (.param "A")), ("snd", (.param "B"))] }], prog := core3 }
+def goenv3 : GoCompile.Env :=
+  { structs := [{ name := "Pair__Shape__string", generics := [], fields := [("fst", (.enum "Shape")), ("snd", .string)] }, { name := "Pair__string__Shape", generics := [], fields := [("fst", .string), ("snd", (.enum "Shape"))] }, { name := "closure_env_f_0", generics := [], fields := [("scale_0", (.int 32 true))] }], structsLookup := [{ name := "closure_env_f_0", generics := [], fields := [("scale_0", (.int 32 true))] }, { name := "Pair__Shape__string", generics := [], fields := [("fst", (.enum "Shape")), ("snd", .string)] }, { name := "Pair__string__Shape", generics := [], fields := [("fst", .string), ("snd", (.enum "Shape"))] }, { name := "Pair", generics := ["A", "B"], fields := [("fst", (.param "A")), ("snd", (.param "B"))] }], enums := [{ name := "Shape", generics := [], variants := [("Dot", []), ("Box", [(.int 32 true), (.int 32 true)])] }], traits := [], externFns := [], externTys := [], applyTys := [("closure_env_f_0", some (.func [(.struct "closure_env_f_0"), (.enum "Shape")] (.int 32 true)))] }
+def e2e3 : E2EIn := { pipe := ex3, goenv := goenv3 }
+
+/-- corpus/C01pipe/e2e-closure-generic-struct-panic.gom: Core after match compilation -/
+def core4 : Prog := { impls := [], fns := [
+  { name := "pick", generics := [], params := [("c/0", .bool), ("a/1", (.param "T")), ("b/2", (.param "T"))], ret := (.param "T"),
+    body := (.ite (.var "c/0" .bool) (.var "a/1" (.param "T")) (.var "b/2" (.param "T"))) },
+  { name := "main", generics := [], params := [], ret := .unit,
+    body := (.letE "k/3" (.call (.int 32 true) (.var "pick" (.func [.bool, (.int 32 true), (.int 32 true)] (.int 32 true))) [(.prim (.bool true)), (.prim (.int 32 true (10))), (.prim (.int 32 true (20)))])
+    (.letE "add/5" (.closure (.func [(.int 32 true)] (.int 32 true)) [("x/4", (.int 32 true))]
+    (.bin .add (.int 32 true) (.var "x/4" (.int 32 true)) (.var "k/3" (.int 32 true))))
+    (.letE "a/6" (.constr (.struct "Acc") (.struct "Acc") [(.call (.int 32 true) (.var "add/5" (.func [(.int 32 true)] (.int 32 true))) [(.prim (.int 32 true (5)))]), (.prim (.int 32 true (3)))])
+    (.letE "mtmp0" (.call .unit (.var "string_println" (.func [.string] .unit)) [(.bin .add .string (.call .string (.var "pick" (.func [.bool, .string, .string] .string)) [(.prim (.bool false)), (.prim (.str "a")), (.prim (.str "b"))]) (.call .string (.var "int32_to_string" (.func [(.int 32 true)] .string)) [(.cget (.struct "Acc") 0 (.int 32 true) (.var "a/6" (.struct "Acc")))]))])
+    (.letE "z/7" (.bin .sub (.int 32 true) (.cget (.struct "Acc") 1 (.int 32 true) (.var "a/6" (.struct "Acc"))) (.prim (.int 32 true (3))))
+    (.letE "mtmp1" (.call .unit (.var "string_println" (.func [.string] .unit)) [(.call .string (.var "int32_to_string" (.func [(.int 32 true)] .string)) [(.bin .div (.int 32 true) (.cget (.struct "Acc") 0 (.int 32 true) (.var "a/6" (.struct "Acc"))) (.var "z/7" (.int 32 true)))])])
+    (.prim .unit))))))) }] }
+def ex4 : PipeIn :=
+  { gensym := 2, enums := [], structs := [{ name := "Acc", generics := [], fields := [("total", (.int 32 true)), ("n", (.int 32 true))] }], prog := core4 }
+def goenv4 : GoCompile.Env :=
+  { structs := [{ name := "Acc", generics := [], fields := [("total", (.int 32 true)), ("n", (.int 32 true))] }, { name := "closure_env_add_0", generics := [], fields := [("k_0", (.int 32 true))] }], structsLookup := [{ name := "closure_env_add_0", generics := [], fields := [("k_0", (.int 32 true))] }, { name := "Acc", generics := [], fields := [("total", (.int 32 true)), ("n", (.int 32 true))] }], enums := [], traits := [], externFns := [], externTys := [], applyTys := [("closure_env_add_0", some (.func [(.struct "closure_env_add_0"), (.int 32 true)] (.int 32 true)))] }
+def e2e4 : E2EIn := { pipe := ex4, goenv := goenv4 }
 
 end Goml.Pipeline.Examples
